@@ -330,7 +330,8 @@ class DebFile(ArFile):
             # also permit uncompressed data.tar and control.tar
             if basename in (DATA_PART, CTRL_PART):
                 candidates.append(basename)
-            parts = actual_names.intersection(set(candidates))
+            # two members of the same name are two candidates as well
+            parts = [name for name in self.getnames() if name in candidates]
             if not parts:
                 raise DebError(
                     "missing required part in given .deb"
@@ -341,12 +342,16 @@ class DebFile(ArFile):
                     "too many parts in given .deb"
                     " (was looking for only one of: %s)" % candidates)
 
-            return list(parts)[0]   # singleton list
+            return parts[0]   # singleton list
 
         if INFO_PART not in actual_names:
             raise DebError(
                 "missing required part in given .deb"
                 " (expected: '%s')" % INFO_PART)
+        if self.getnames().count(INFO_PART) > 1:
+            raise DebError(
+                "too many parts in given .deb"
+                " (was looking for only one '%s')" % INFO_PART)
 
         self.__parts = {}   # type: Dict[str, DebPart]
         self.__parts[CTRL_PART] = DebControl(self.getmember(
